@@ -398,6 +398,10 @@ package zygo
 // the sweep also asks for nil: where a swept function dereferences what a callee or a map handed
 // back (a field access, a load, an interface method call), the value must be provably non-nil there
 //@ nilsweep C01
+// reflect.SliceOf panics on a nil element type (library precondition, stated here so that its
+// callers in the swept code get an obligation): a registered type need not have a Go type
+//@ func reflect.SliceOf
+//@ C01 requires has-element-type: t != nil
 // mdef: every target slot is filled with a symbol before the value is compiled; the bind
 // instruction hands each one to BindSymbol, which dereferences it
 //@ func (*Generator).GenerateMultiDef
